@@ -32,3 +32,4 @@ from . import gen_dictarith; GENERATORS["GenDictArith"] = gen_dictarith.generate
 from . import gen_shapes; GENERATORS["GenShapes"] = gen_shapes.generate
 from . import gen_forest; GENERATORS["GenForest"] = gen_forest.generate
 from . import gen_pathflow; GENERATORS["GenPathFlow"] = gen_pathflow.generate
+from . import gen_mesh; GENERATORS["GenMesh"] = gen_mesh.generate
